@@ -229,8 +229,12 @@ def gen_augment(rng, k):
     # (known finding C06-augment-overwrites-weighted-count)
     sv = gen.Survey([t, f], rng.choice([2, 5, 9, 14]), rng, weighted=(rng.random() < 0.3),
                     zero_weights=False)
+    # mask_size > 0 in two cases out of three: the minimum-base mask of an augmented cube must be the
+    # one of the full-shape cube built with the same threshold (seeded change C02-6: augment_response
+    # rebuilt the cube without the threshold)
     return survey_case("augment", k, sv, n_filters=rng.randint(1, 2),
-                       meas={"measures": ["count"], "numvar": None, "valid_counts": False})
+                       meas={"measures": ["count"], "numvar": None, "valid_counts": False},
+                       mask_size=rng.choice([0, 2, 3, 6]))
 
 
 def witness_augment_case():
@@ -517,17 +521,18 @@ def augment_responses(case):
 
 def check_augment(case, stats=None):
     summary, fulls, filts = augment_responses(case)
-    res = impl.guarded(lambda: cube_set([summary] + filts).partition_sets)
+    ms = case.get("mask_size", 0)
+    res = impl.guarded(lambda: cube_set([summary] + filts, ms).partition_sets)
     if res[0] != "ok":
         return [fail("exception", where="CubeSet.partition_sets", got=res[1:])]
     psets = res[1]
     fails = []
     if len(psets) != 1 or len(psets[0]) != 1 + len(filts):
         return [fail("n_partition_sets", got=[len(x) for x in psets], expected=[1 + len(filts)])]
-    fs = compare_parts(psets[0][0], lone(summary, cube_idx=0).partitions[0], (), "summary cube")
+    fs = compare_parts(psets[0][0], lone(summary, cube_idx=0, mask_size=ms).partitions[0], (), "summary cube")
     fails.extend(fs)
     for j, full in enumerate(fulls):
-        q = lone(full, cube_idx=j + 1).partitions[0]
+        q = lone(full, cube_idx=j + 1, mask_size=ms).partitions[0]
         fs = compare_parts(psets[0][j + 1], q, (),
                            "augmented filter cube %d vs full-shape cube of the filtered survey" % (j + 1))
         for f in fs:
